@@ -228,47 +228,151 @@ def sib_quote(p, res):
 
 
 # ---------------------------------------------------------------- SIB-CARET
+def _truth(rc, src):
+    """truth of `src` on a path whose resolved conditions are rc: True / False / None"""
+    if src in rc:
+        return rc[src]
+    if ('%s is None' % src) in rc and rc['%s is None' % src] is True:
+        return False
+    if ('%s is not None' % src) in rc and rc['%s is not None' % src] is False:
+        return False
+    return None
+
+
+def _caret_paths(res, rname, f, paths, val, what, boolean_call=None, skip=None):
+    """on every path: the value tokens that are printed are `val` only where `val` is known to be non-empty, and where
+    `val` is empty (None or []) the caret is printed instead (unless `skip(rc)` says the path prints no value at all)"""
+    from .path import _emission
+    n_val = n_caret = 0
+    for q in paths:
+        rc = q.rconds()
+        toks = [(a, r) for k, a, r, _ in _emission(q) if k == 'tok']
+        t = _truth(rc, val)
+        isbool = None
+        if boolean_call is not None:
+            isbool = next((v for k, v in rc.items() if k.startswith(boolean_call + '(')), None)
+        where = ['path: ' + q.cond_str()[:400]]
+        for a, r in toks:
+            if a == val:
+                if t is True:
+                    n_val += 1
+                else:
+                    res.bad(F(rname, f, f.node, '%s: %s' % (what, src_of(r)), 'the value is printed on a path where it may be empty ([]): nothing appears between the quotes although an empty value must fall back to the caret tabstop (the sibling formatters test its truthiness)', details=where))
+            elif a == 'caret':
+                if t is False:
+                    n_caret += 1
+                elif t is True:
+                    res.bad(F(rname, f, f.node, '%s: %s' % (what, src_of(r)), 'the caret replaces a value that is present', details=where))
+        if t is False and not toks and not (skip and skip(rc)) and isbool is not True:
+            res.bad(F(rname, f, f.node, '%s [%s]' % (what, q.cond_str()[:200]), 'an empty value (None or []) prints neither value nor caret on this path', details=where))
+        if t is not False and isbool is True and not any(a == val or val in a for a, r in toks):
+            res.bad(F(rname, f, f.node, '%s [%s]' % (what, q.cond_str()[:200]), 'a boolean attribute prints no value on a path where it may have one: an explicitly written value is dropped', details=where))
+    return n_val, n_caret
+
+
 @rule('SIB-CARET', 'N', 'every empty value (None or empty list) falls back to the caret; boolean attributes print without a value only when they have none')
 def sib_caret(p, res):
+    from .. import sympath, norm, shape
+    from .path import _emits, _emission
+    sel = lambda call, g: _emits(g)
     # html.push_attribute
     f = p.func('markup.format.html.push_attribute')
-    s = src_of(f.node)
-    if 'elif not value:\n            value = caret' in s:
-        res.ok('html.push_attribute: elif not value: value = caret')
-    else:
-        res.bad(F('SIB-CARET', f, f.node, 'elif not value: value = caret', 'an attribute without value (None or []) must receive the caret tabstop'))
-    if 'if is_boolean_attribute(attr, config) and (not value):' in s:
-        res.ok('html.push_attribute: boolean branch requires `not value`')
-    else:
-        res.bad(F('SIB-CARET', f, f.node, 'if is_boolean_attribute(attr, config) and not value', 'a boolean attribute keeps an explicitly written value'))
+    try:
+        paths = [q for q in sympath.feasible(sympath.summaries(p, f, inline=True, select=sel)) if _truth(q.rconds(), '%s.name' % f.params[0]) is not False]
+        nv, nc = _caret_paths(res, 'SIB-CARET', f, paths, '%s.value' % f.params[0], 'html attribute', boolean_call='is_boolean_attribute')
+        if nv and nc:
+            res.ok('html.push_attribute: value printed only where non-empty (%d paths), caret where empty (%d paths)' % (nv, nc), n=2)
+        else:
+            res.undecided('html.push_attribute', 'value / caret paths not recognised (%d / %d)' % (nv, nc))
+    except sympath.Unsupported as e:
+        res.undecided('html.push_attribute', str(e))
+    # indent.push_secondary_attributes (one iteration)
     g = p.func('markup.format.indent_format.push_secondary_attributes')
-    s = src_of(g.node)
-    if 'push_tokens(attr.value or caret, state)' in s:
-        res.ok('indent.push_secondary_attributes: attr.value or caret')
+    gn = norm.nf(p, g, select=sel)
+    loops = [x for x in shape.own_nodes(gn) if isinstance(x, ast.For)]
+    if len(loops) == 1:
+        defs = shape.defs_of(gn, params=g.params)
+        AV = [t.id for t in ast.walk(loops[0].target) if isinstance(t, ast.Name)][-1]
+        try:
+            its = sympath.feasible(sympath.block_summaries(p, g, loops[0].body, env={k: shape.expand(v, defs) for k, v in defs.items()}))
+            nv, nc = _caret_paths(res, 'SIB-CARET', g, its, '%s.value' % AV, 'indent attribute', boolean_call='is_boolean_attribute')
+            if nv and nc:
+                res.ok('indent.push_secondary_attributes: value printed only where non-empty, caret where empty', n=2)
+            else:
+                res.undecided('indent.push_secondary_attributes', 'value / caret paths not recognised (%d / %d)' % (nv, nc))
+        except sympath.Unsupported as e:
+            res.undecided('indent.push_secondary_attributes', str(e))
     else:
-        res.bad(F('SIB-CARET', g, g.node, 'push_tokens(attr.value or caret, state)', 'an attribute without value (None or []) must receive the caret tabstop (html sibling uses `not value`)'))
-    if 'if is_boolean_attribute(attr, config) and (not attr.value):' in s:
-        res.ok('indent.push_secondary_attributes: boolean branch requires `not attr.value`')
-    else:
-        res.bad(F('SIB-CARET', g, g.node, 'if is_boolean_attribute(attr, config) and not attr.value', 'a boolean attribute keeps an explicitly written value (html sibling does)'))
+        res.undecided('indent.push_secondary_attributes', 'one loop expected')
+    # indent.push_value: a leaf without text receives the caret; only elements with children and no text print nothing
     h = p.func('markup.format.indent_format.push_value')
-    s = src_of(h.node)
-    if 'value = node.value or caret' in s and 'if not node.value and node.children:\n        return' in s:
-        res.ok('indent.push_value: node.value or caret, skipped only for value-less parents')
-    else:
-        res.bad(F('SIB-CARET', h, h.node, 'value = node.value or caret', 'a leaf without text receives the caret; only elements with children and no text print nothing'))
-    e = p.func('markup.format.html.element')
-    s = src_of(e.node)
-    if 'if not node.value and (not node.children):' in s and 'push_tokens(caret, state)' in s:
-        res.ok('html.element: caret exactly when no value and no children')
-    else:
-        res.bad(F('SIB-CARET', e, e.node, 'if not node.value and not node.children: ... push_tokens(caret, state)', 'the caret goes into elements that have neither text nor children'))
+    try:
+        hp = sympath.feasible(sympath.summaries(p, h, inline=True, select=sel))
+        N = h.params[0]
+        nv = nc = 0
+        for q in hp:
+            rc = q.rconds()
+            tv, tc = _truth(rc, '%s.value' % N), _truth(rc, '%s.children' % N)
+            printed = [x for x in sympath.mentions(q, lambda n: isinstance(n, ast.Call) and getattr(n.func, 'id', getattr(n.func, 'attr', None)) in ('push_tokens', 'split_by_lines'))]
+            args = {q.rsrc(c.args[0]) for c in printed if c.args}
+            where = ['path: ' + q.cond_str()[:300]]
+            if tv is False and tc is False:
+                if 'caret' in args:
+                    nc += 1
+                elif not args:
+                    res.bad(F('SIB-CARET', h, h.node, 'push_value [%s]' % q.cond_str()[:200], 'a leaf without text receives the caret; this path prints nothing', details=where))
+            elif tv is True:
+                if '%s.value' % N in args:
+                    nv += 1
+                elif not args:
+                    res.bad(F('SIB-CARET', h, h.node, 'push_value [%s]' % q.cond_str()[:200], 'the text of the element is not printed on this path', details=where))
+            elif tv is False and tc is True and 'caret' in args:
+                res.bad(F('SIB-CARET', h, h.node, 'push_value [%s]' % q.cond_str()[:200], 'an element with children and no text prints nothing itself: the caret belongs to leaves only', details=where))
+            elif tv is None and '%s.value' % N in args:
+                res.bad(F('SIB-CARET', h, h.node, 'push_value [%s]' % q.cond_str()[:200], 'the value is printed on a path where it may be empty: no caret for an empty text', details=where))
+        if nv and nc:
+            res.ok('indent.push_value: node.value where non-empty, caret for empty leaves')
+        else:
+            res.undecided('indent.push_value', 'value / caret paths not recognised (%d / %d)' % (nv, nc))
+    except sympath.Unsupported as e:
+        res.undecided('indent.push_value', str(e))
+    # html.element: PATH-EMIT-HTML checks on every path that the caret is emitted only with neither text nor children, and always then
+    # css_property: value or tabstop 0
     cp = p.func('stylesheet.format.css_property')
-    s = src_of(cp.node)
-    if "if node.value:\n            css_property_value(node, out, config)\n        else:\n            out.push_field(0, '')" in s:
-        res.ok("css_property: value or push_field(0, '')")
-    else:
-        res.bad(F('SIB-CARET', cp, cp.node, "else: out.push_field(0, '')", 'a property without value receives tabstop 0'))
+    try:
+        cps = sympath.feasible(sympath.summaries(p, cp, inline=False))
+        N = cp.params[0]
+        good = 0
+        for q in cps:
+            rc = q.rconds()
+            if _truth(rc, '%s.name' % N) is not True:
+                continue
+            tv = _truth(rc, '%s.value' % N)
+            fields = [q.rsrc(n) for _, n, _ in q.calls('push_field')]
+            vals = [q.rsrc(n) for _, n, _ in q.calls('css_property_value')]
+            where = ['path: ' + q.cond_str()[:300]]
+            if tv is False:
+                if len(fields) == 1 and fields[0].endswith("push_field(0, '')") and not vals:
+                    good += 1
+                elif not fields:
+                    res.bad(F('SIB-CARET', cp, cp.node, 'css_property [%s]' % q.cond_str()[:200], 'a property without value receives tabstop 0', details=where))
+                else:
+                    res.undecided('css_property: %s' % fields, "push_field(0, '')")
+            elif tv is True:
+                if vals and not fields:
+                    good += 1
+                elif fields:
+                    res.bad(F('SIB-CARET', cp, cp.node, 'css_property [%s]' % q.cond_str()[:200], 'a tabstop is printed although the property has a value', details=where))
+                else:
+                    res.bad(F('SIB-CARET', cp, cp.node, 'css_property [%s]' % q.cond_str()[:200], 'the value of the property is not printed', details=where))
+            else:
+                res.undecided('css_property [%s]' % q.cond_str()[:200], 'path does not test node.value')
+        if good >= 2:
+            res.ok("css_property: value or push_field(0, '')", n=2)
+        else:
+            res.undecided('css_property', 'value / tabstop paths not recognised')
+    except sympath.Unsupported as e:
+        res.undecided('css_property', str(e))
     res.require_floor(7)
 
 
@@ -624,16 +728,108 @@ def dec_mergedecl(p, res):
             res.bad(F('DEC-MERGEDECL', f, f.node, 'dest.type=%s src.type=%s reverse=%s implied=%s/%s boolean=%s/%s' % (dt, st, rev, di, si, db, sb), '; '.join(problems)))
         else:
             res.ok('dest=%s src=%s reverse=%s -> value %s type %s' % (dt, st, rev, want_val, upstream) if len(res.samples) < 3 else None)
-    # merge_attributes: class values are glued with one space, others merged by declaration, first position kept
+    # merge_attributes, decided on the symbolic summary of one loop iteration: an unnamed attribute is appended as is; the
+    # first occurrence of a name appends a copy and remembers that same copy; a later `class` glues its value to the
+    # remembered copy with one space (and stores the result: merge_value returns a new list when the old value is None);
+    # any other later occurrence goes through merge_declarations(remembered, attr, config)
+    from .. import sympath, norm, shape
     g = p.func('markup.attributes.merge_attributes')
-    s = src_of(g.node)
-    need = ["if attr_name == 'class':\n                    prev.value = merge_value(prev.value, attr.value, ' ')", 'merge_declarations(prev, attr, config)',
-            'lookup[attr_name] = attr.copy()', 'attributes.append(lookup[attr_name])', 'node.attributes = attributes']
-    for w in need:
-        if w in s:
-            res.ok('merge_attributes: ' + w.split('\n')[-1].strip())
-        else:
-            res.bad(F('DEC-MERGEDECL', g, g.node, w.split('\n')[-1].strip(), 'attribute de-duplication changed: first occurrence keeps the position, classes are joined by a single space'))
+    gn = norm.nf(p, g, inline=True)
+    loops = [x for x in shape.own_nodes(gn) if isinstance(x, ast.For) and src_of(x.iter) == 'node.attributes']
+    if len(loops) != 1 or not isinstance(loops[0].target, ast.Name):
+        res.undecided('merge_attributes', 'one loop over node.attributes expected')
+    else:
+        lp = loops[0]
+        A = lp.target.id
+        try:
+            its = sympath.feasible(sympath.block_summaries(p, g, lp.body))
+        except sympath.Unsupported as e:
+            its = []
+            res.undecided('merge_attributes loop', str(e))
+        rets = [x for x in shape.own_nodes(gn) if isinstance(x, ast.Assign) and src_of(x.targets[0]) == 'node.attributes']
+        out = src_of(rets[0].value) if len(rets) == 1 and isinstance(rets[0].value, ast.Name) else None
+        if out is None:
+            res.undecided('node.attributes = ...', 'the merged list is stored back into the node')
+        seen_classes = set()
+        for q in its if out else []:
+            cm = q.cond_map(q.snaps)
+            named = cm.get('%s.name' % A)
+            calls = [(sym, sympath.unsnap(n, q.snaps)) for sym, n, _ in q.events if isinstance(n, ast.Call)]
+            stores = [sympath.unsnap(n, q.snaps) for sym, n, _ in q.events if isinstance(n, ast.Assign)]
+            appended = [c.args[0] for _, c in calls if src_of(c.func) == '%s.append' % out and c.args]
+            inlook = cm.get('%s.name in lookup' % A)
+            if inlook is None and cm.get('lookup.get(%s.name) is None' % A) is not None:
+                inlook = not cm['lookup.get(%s.name) is None' % A]
+            if inlook is None and cm.get('lookup.get(%s.name)' % A) is not None:
+                inlook = cm['lookup.get(%s.name)' % A]
+            isclass = cm.get("%s.name == 'class'" % A)
+            PREV = ('lookup[%s.name]' % A, 'lookup.get(%s.name)' % A)
+            where = ['iteration path: ' + q.cond_str()]
+            if named is False:
+                cls = 'unnamed'
+                if [src_of(x) for x in appended] == [A] and len(calls) == 1 and not stores:
+                    res.ok('merge_attributes: unnamed attribute appended unchanged')
+                elif not appended:
+                    res.bad(F('DEC-MERGEDECL', g, lp, 'unnamed attribute [%s]' % q.cond_str(), 'an attribute without a name is dropped from the element', details=where))
+                else:
+                    res.undecided('unnamed attribute: %s' % [src_of(c) for _, c in calls], 'append(attr) only')
+            elif named is True and inlook is False:
+                cls = 'first'
+                st_look = [x for x in stores if src_of(x.targets[0]) == 'lookup[%s.name]' % A]
+                copies = [sym for sym, c in calls if src_of(c) == '%s.copy()' % A]
+                ok = len(st_look) == 1 and len(appended) == 1 and len(copies) == 1 and src_of(st_look[0].value) == copies[0] \
+                    and src_of(appended[0]) in (copies[0],) + PREV
+                if ok:
+                    res.ok('merge_attributes: first occurrence appends a copy and remembers that copy')
+                elif len(appended) == 1 and src_of(appended[0]) == A:
+                    res.bad(F('DEC-MERGEDECL', g, lp, 'first occurrence [%s]' % q.cond_str(), 'the attribute of the abbreviation tree itself is appended instead of the remembered copy: later merges do not reach the output (or change the tree)', details=where))
+                elif not appended:
+                    res.bad(F('DEC-MERGEDECL', g, lp, 'first occurrence [%s]' % q.cond_str(), 'a named attribute seen for the first time is not added to the element', details=where))
+                elif not st_look:
+                    res.bad(F('DEC-MERGEDECL', g, lp, 'first occurrence [%s]' % q.cond_str(), 'the first occurrence is not remembered: a repeated attribute is printed twice', details=where))
+                else:
+                    res.undecided('first occurrence: %s' % [src_of(c) for _, c in calls], 'copy, remember, append the same object')
+            elif named is True and inlook is True and isclass is True:
+                cls = 'class'
+                mv = [(sym, c) for sym, c in calls if src_of(c.func) == 'merge_value']
+                ok = False
+                if len(mv) == 1 and len(mv[0][1].args) == 3:
+                    a0, a1, a2 = mv[0][1].args
+                    ok = src_of(a0) in tuple(x + '.value' for x in PREV) and src_of(a1) == '%s.value' % A and p.try_const(g, a2) == ' '
+                    stored = [x for x in stores if src_of(x.targets[0]) in tuple(pv + '.value' for pv in PREV) and src_of(x.value) == mv[0][0]]
+                    if ok and stored and not appended:
+                        res.ok("merge_attributes: class values glued with one space onto the remembered attribute")
+                    elif ok and not stored:
+                        res.bad(F('DEC-MERGEDECL', g, lp, src_of(mv[0][1]), 'the result of merge_value is dropped: when the remembered class attribute has no value yet (None) the merged list is a new object and the class is lost', details=where))
+                    elif len(mv[0][1].args) == 3 and isinstance(p.try_const(g, a2), str) and p.try_const(g, a2) != ' ':
+                        res.bad(F('DEC-MERGEDECL', g, lp, src_of(mv[0][1]), 'class names are separated by exactly one space', details=where))
+                    elif appended:
+                        res.bad(F('DEC-MERGEDECL', g, lp, 'repeated class [%s]' % q.cond_str(), 'a repeated class attribute is appended again instead of being merged', details=where))
+                    else:
+                        res.undecided(src_of(mv[0][1]), 'merge_value(remembered.value, attr.value, " ")')
+                elif not mv and any(src_of(c.func) == 'merge_declarations' for _, c in calls):
+                    res.bad(F('DEC-MERGEDECL', g, lp, 'repeated class [%s]' % q.cond_str(), 'a repeated class replaces the earlier classes instead of being added to them', details=where))
+                else:
+                    res.undecided('repeated class: %s' % [src_of(c) for _, c in calls], 'one merge_value call')
+            elif named is True and inlook is True and isclass is False:
+                cls = 'other'
+                md = [c for _, c in calls if src_of(c.func) == 'merge_declarations']
+                if len(md) == 1 and len(md[0].args) == 3 and src_of(md[0].args[0]) in PREV and src_of(md[0].args[1]) == A and not appended:
+                    res.ok('merge_attributes: a repeated attribute is merged into the remembered one by merge_declarations')
+                elif len(md) == 1 and len(md[0].args) == 3 and src_of(md[0].args[0]) == A and src_of(md[0].args[1]) in PREV:
+                    res.bad(F('DEC-MERGEDECL', g, lp, src_of(md[0]), 'destination and source are swapped: the later value must be merged into the remembered (first) attribute', details=where))
+                elif appended:
+                    res.bad(F('DEC-MERGEDECL', g, lp, 'repeated attribute [%s]' % q.cond_str(), 'a repeated attribute is appended again: it is printed twice', details=where))
+                elif not md:
+                    res.bad(F('DEC-MERGEDECL', g, lp, 'repeated attribute [%s]' % q.cond_str(), 'a repeated attribute is silently dropped (must be merged by merge_declarations)', details=where))
+                else:
+                    res.undecided('repeated attribute: %s' % [src_of(c) for _, c in calls], 'merge_declarations(remembered, attr, config)')
+            else:
+                cls = None
+                res.undecided('iteration path %s' % q.cond_str(), 'path is not one of: unnamed / first / repeated class / repeated other')
+            seen_classes.add(cls)
+        if out and its and not {'unnamed', 'first', 'class', 'other'} <= seen_classes:
+            res.undecided('merge_attributes', 'cases seen: %s' % sorted(str(x) for x in seen_classes))
     res.require_floor(250)
 
 
